@@ -1,9 +1,21 @@
 package main
 
+import "golang.org/x/tools/go/ssa"
+
 // Reviewed definitions of the small kernel functions of the index and the log reader. Each is compared as a set of
 // canonical effects (stores, returns) and branch conditions - parameters by position, fields by qualified name, locals
 // expanded - so renaming, hoisting a sub-expression into a local, or restructuring if/else does not change it, while a
 // changed operator, constant, field or a dropped step does.
+// kernelAlternatives: other reviewed, equivalent formulations of a kernel function.
+var kernelAlternatives = map[string][][]string{
+	"(*pogreb.bucket).del": {
+		{ // shift with copy(), then clear the last slot
+			"return ",
+			"store p0.slots[30] = zero",
+		},
+	},
+}
+
 var kernelShapes = map[string]struct {
 	want        []string
 	what        string
@@ -124,12 +136,61 @@ var kernelShapes = map[string]struct {
 func ruleKernelShapes(keys ...string) ruleFn {
 	return func(r *Run, p *Program, rule string) {
 		for _, k := range keys {
+			if p.Fn(k) == nil {
+				// the function was renamed or folded into another: the definition it pinned is not decided (reported in the
+				// evidence), the path/flow rules of the property still apply
+				r.advisory(rule, k, "", "reviewed definition not checked: function "+k+" not found under this name")
+				continue
+			}
 			s, ok := kernelShapes[k]
 			if !r.anchor(rule, "reviewed shape of "+k, ok) {
+				continue
+			}
+			if alts := kernelAlternatives[k]; len(alts) > 0 && matchesAlternative(p, k, alts) {
+				r.ok(rule, k, p.Pos(p.Fn(k).Pos()), s.what+" (reviewed alternative formulation)", true)
 				continue
 			}
 			checkShape(r, p, rule, k, s.want, s.what, s.consequence)
 		}
 		r.universe(rule, len(keys), 1)
 	}
+}
+
+// matchesAlternative: the function's effects equal one of the alternative effect sets, and (for bucket.del) the copy call
+// shifts slots[i+1:] onto slots[i:].
+func matchesAlternative(p *Program, key string, alts [][]string) bool {
+	f := p.Fn(key)
+	if f == nil {
+		return false
+	}
+	got := effects(f)
+	for _, alt := range alts {
+		if len(got) != len(alt) {
+			continue
+		}
+		same := true
+		for i := range alt {
+			if got[i] != alt[i] {
+				same = false
+			}
+		}
+		if !same {
+			continue
+		}
+		if key == "(*pogreb.bucket).del" {
+			okCopy := false
+			instrsOf(f, func(in ssa.Instruction) {
+				c, ok := in.(*ssa.Call)
+				if !ok {
+					return
+				}
+				if b, ok := c.Call.Value.(*ssa.Builtin); ok && b.Name() == "copy" && len(c.Call.Args) == 2 {
+					okCopy = canon(c.Call.Args[0]) == "&p0.slots[p1:]" && canon(c.Call.Args[1]) == "&p0.slots[(p1+1):]"
+				}
+			})
+			return okCopy
+		}
+		return true
+	}
+	return false
 }
